@@ -1,3 +1,136 @@
-From ST Require Import Base.Outcome Utf.Spec Utf.Tokens Utf.Model.
-Theorem placeholder : True. Proof. exact I. Qed.
-Print Assumptions placeholder.
+(* Properties/C02.v — C02: validation modes accept, reject and repair malformed input.
+   Statements only.  The specification is Utf/Tokens.v: ONE tolerant left-to-right tokeniser
+   per source encoding (`tok e s`; overlong forms, encoded surrogates, 4-byte forms up to
+   0x1FFFFF and low+high surrogate pairs are Good; a stray continuation byte, a lead byte
+   without its continuation bytes, F8..FF, an unpaired surrogate, a UTF-32 value above
+   0x10FFFF are Bad, one unit each), `WF e s` = no Bad token, `spec_conv` = the reference
+   result under a mode.  `conv_fn e tg = Some f` ranges over EVERY validating conversion:
+   UTF-8 -> ST::string / UTF-16 / UTF-32 / Latin-1, UTF-16 -> UTF-8 / UTF-32 / Latin-1,
+   UTF-32 -> UTF-8 / UTF-16 / Latin-1 (wchar_t routes are aliases of these on this platform,
+   except the two same-width copies: see wchar_copy_ignores_mode_refuted).
+   `can_show tg sub t`: the target can represent the value of token t (always for UTF-32 and
+   ST::string targets, for UTF-16/UTF-32 sources, and for Latin-1 with the flag set).      *)
+From Coq Require Import NArith List Bool.
+From ST Require Import Base.Outcome Base.Units Utf.Spec Utf.Tokens Utf.Model Utf.ProofsGeneric Utf.ProofsC01 Utf.ProofsC02.
+Import ListNotations.
+Local Open Scope N_scope.
+
+(* the code computes the specification's reference result: every pair, every mode, every input *)
+Theorem model_refines_spec : forall e tg f m sub s,
+  conv_fn e tg = Some f -> all_lt (unit_bound e) s = true -> fits s ->
+  refines (f m sub (Some s)) (spec_conv e tg m sub s).
+Proof. exact conv_refines_spec. Qed.
+Print Assumptions model_refines_spec.
+
+(* validate_iff: the structural validator accepts exactly the well-formed byte strings *)
+Theorem validate_iff : forall b, all_lt 256 b = true -> (validate_utf8 b = Ok CSuccess <-> WF8 b = true).
+Proof. exact ProofsC02.validate_iff. Qed.
+Print Assumptions validate_iff.
+
+(* check_validity throws ST::unicode_error exactly when some unit is Bad *)
+Theorem check_validity_throws_iff : forall e tg f, conv_fn e tg = Some f ->
+  forall sub s, all_lt (unit_bound e) s = true -> fits s -> forallb (can_show tg sub) (tok e s) = true ->
+  (f CheckValidity sub (Some s) = Throw UnicodeError <-> WF e s = false).
+Proof. exact check_throws_iff. Qed.
+Print Assumptions check_validity_throws_iff.
+
+(* where `can_show` holds for every input *)
+Theorem can_show_holds : forall e tg sub s, all_lt (unit_bound e) s = true ->
+  (tg = TS \/ tg = T32 \/ (tg = TL1 /\ sub = true) \/ ((e = E16 \/ e = E32) /\ (tg = T8 \/ tg = T16))) ->
+  forallb (can_show tg sub) (tok e s) = true.
+Proof. exact can_show_always. Qed.
+Print Assumptions can_show_holds.
+
+(* deciders_agree: the three independent UTF-8 deciders (validate_utf8 behind ST::string,
+   extract_utf8 inside the UTF-32 / wchar_t / Latin-1 / UTF-16 converters) reject the same inputs *)
+Theorem deciders_agree : forall b, all_lt 256 b = true -> fits b ->
+  (set_utf8 CheckValidity (Some b) = Throw UnicodeError <-> WF8 b = false) /\
+  (utf8_to_utf32 CheckValidity (Some b) = Throw UnicodeError <-> WF8 b = false) /\
+  (utf8_to_wchar CheckValidity (Some b) = Throw UnicodeError <-> WF8 b = false) /\
+  (utf8_to_latin_1 CheckValidity true (Some b) = Throw UnicodeError <-> WF8 b = false) /\
+  (forallb (can_show T16 false) (tok8 b) = true ->
+   (utf8_to_utf16 CheckValidity (Some b) = Throw UnicodeError <-> WF8 b = false)).
+Proof. exact ProofsC02.deciders_agree. Qed.
+Print Assumptions deciders_agree.
+
+(* repair_total: a mode other than check_validity never throws (Latin-1: with the flag set) *)
+Theorem repair_total : forall e tg f, conv_fn e tg = Some f ->
+  forall m sub s, all_lt (unit_bound e) s = true -> fits s -> m <> CheckValidity -> (tg <> TL1 \/ sub = true) ->
+  exists out, f m sub (Some s) = Ok out.
+Proof. exact lenient_never_throws. Qed.
+Print Assumptions repair_total.
+
+(* repair_exact: substitute_invalid = everything else transcoded, U+FFFD ('?') for each Bad unit *)
+Theorem repair_exact : forall e tg f, conv_fn e tg = Some f ->
+  forall sub s, all_lt (unit_bound e) s = true -> fits s -> (tg <> TL1 \/ sub = true) ->
+  f SubstituteInvalid sub (Some s) = Ok (flat_map (repair_units tg) (tok e s)).
+Proof. exact substitute_exact. Qed.
+Print Assumptions repair_exact.
+
+(* repair_revalid: repaired output passes check_validity *)
+Theorem repair_revalid_string : forall b, all_lt 256 b = true ->
+  exists out, string_set SubstituteInvalid b = Ok out /\ WF8 out = true /\ all_lt 256 out = true.
+Proof. exact repaired_string_revalidates. Qed.
+Print Assumptions repair_revalid_string.
+Theorem repair_revalid_utf8 : forall e f s, conv_fn e T8 = Some f -> all_lt (unit_bound e) s = true -> fits s ->
+  exists out, f SubstituteInvalid false (Some s) = Ok out /\ WF8 out = true.
+Proof. exact repaired_utf8_revalidates. Qed.
+Print Assumptions repair_revalid_utf8.
+Theorem repair_revalid_utf16 : forall b, all_lt 256 b = true -> fits b -> scalars (values (tok8 b)) = true ->
+  exists out, utf8_to_utf16 SubstituteInvalid (Some b) = Ok out /\ WF16 out = true.
+Proof. exact repaired_utf16_revalidates. Qed.
+Print Assumptions repair_revalid_utf16.
+Theorem repair_revalid_utf32 : forall b, all_lt 256 b = true -> fits b -> scalars (values (tok8 b)) = true ->
+  exists out, utf8_to_utf32 SubstituteInvalid (Some b) = Ok out /\ WF32 out = true.
+Proof. exact repaired_utf32_revalidates. Qed.
+Print Assumptions repair_revalid_utf32.
+(* why the last two carry a hypothesis: a tolerated form whose value the target cannot represent
+   (ED A0 80 -> D800, F4 90 80 80 -> 110000) is copied — the property's own carve-out *)
+Theorem revalid16_refuted : exists b, all_lt 256 b = true /\ WF8 b = true /\
+  utf8_to_utf16 SubstituteInvalid (Some b) = Ok [0xD800] /\ WF16 [0xD800] = false.
+Proof. exact ProofsC02.revalid16_refuted. Qed.
+Print Assumptions revalid16_refuted.
+Theorem revalid32_refuted : exists b, all_lt 256 b = true /\ WF8 b = true /\
+  utf8_to_utf32 SubstituteInvalid (Some b) = Ok [0x110000] /\ WF32 [0x110000] = false.
+Proof. exact ProofsC02.revalid32_refuted. Qed.
+Print Assumptions revalid32_refuted.
+
+(* wf_unchanged / tolerated_same: on well-formed input (tolerated forms included) every mode gives the
+   same buffer and none throws; an ST::string holds exactly the bytes given *)
+Theorem wf_unchanged : forall e tg f, conv_fn e tg = Some f ->
+  forall m1 m2 sub s, all_lt (unit_bound e) s = true -> fits s -> WF e s = true ->
+  forallb (can_show tg sub) (tok e s) = true ->
+  f m1 sub (Some s) = f m2 sub (Some s) /\ exists out, f m1 sub (Some s) = Ok out.
+Proof. exact wellformed_same_in_every_mode. Qed.
+Print Assumptions wf_unchanged.
+Theorem wf_unchanged_string : forall m b, all_lt 256 b = true -> fits b -> WF8 b = true -> set_utf8 m (Some b) = Ok b.
+Proof. exact string_keeps_wellformed. Qed.
+Print Assumptions wf_unchanged_string.
+
+(* default_mode: a call that omits the mode behaves as the configured ST_DEFAULT_VALIDATION
+   (the tie to the three builds is the correspondence run) *)
+Theorem default_mode : forall (A : Type) (dm : vmode) (f : vmode -> A), with_default dm f = f dm.
+Proof. exact @ProofsC02.default_mode. Qed.
+Print Assumptions default_mode.
+
+(* KNOWN FINDING wchar-copy-ignores-mode: with a 32-bit wchar_t, utf32_to_wchar / wchar_to_utf32 are
+   plain copies: check_validity accepts and substitute_invalid keeps a unit above 0x10FFFF, where
+   the specification asks for unicode_error / U+FFFD.  On well-formed UTF-32 they are correct. *)
+Theorem wchar_copy_ignores_mode_refuted :
+  exists x, all_lt 4294967296 x = true /\
+            utf32_to_wchar CheckValidity (Some x) = Ok x /\ wchar_to_utf32 CheckValidity (Some x) = Ok x /\
+            spec_conv E32 T32 CheckValidity false x = SThrow /\
+            utf32_to_wchar SubstituteInvalid (Some x) = Ok x /\
+            spec_conv E32 T32 SubstituteInvalid false x = SOk [0xFFFD].
+Proof. exact wchar_copy_refuted. Qed.
+Print Assumptions wchar_copy_ignores_mode_refuted.
+Theorem wchar_copy_on_wellformed : forall m x, WF32 x = true ->
+  utf32_to_wchar m (Some x) = Ok x /\ wchar_to_utf32 m (Some x) = Ok x /\ spec_conv E32 T32 m false x = SOk x.
+Proof. exact wchar_copy_wellformed. Qed.
+Print Assumptions wchar_copy_on_wellformed.
+
+(* non-vacuity: malformed and tolerated inputs satisfy the hypotheses *)
+Example hypotheses_satisfiable :
+  all_lt 256 [0x41; 0xC3; 0xA9; 0x80; 0xE2; 0x82] = true /\ fits [0x41; 0xC3; 0xA9; 0x80; 0xE2; 0x82] /\
+  WF8 [0x41; 0xC3; 0xA9; 0x80; 0xE2; 0x82] = false /\ WF8 [0x41; 0xC3; 0xA9; 0xED; 0xA0; 0x80; 0xC0; 0x80] = true.
+Proof. exact c02_nonvacuous. Qed.
